@@ -214,6 +214,11 @@ func (exec *Executor) executeAnyItem(
 
 	// Recursively iterate over jsonb objects/arrays
 	for _, v := range value {
+		// The walk visits every element, also where no further step runs.
+		if err := interrupted(ctx); err != nil {
+			return statusFailed, err
+		}
+
 		col := collection(v)
 
 		if level >= first || (first == math.MaxUint32 && last == math.MaxUint32 && !isCollection(v)) {
